@@ -17,9 +17,9 @@
 (* Which K a given nodecount/nodefraction yields is checked on the real    *)
 (* code by TraceTrim.tla.                                                  *)
 (***************************************************************************)
-EXTENDS TrimRules
+EXTENDS TrimRules, Json
 
-CONSTANTS Tier, Broken
+CONSTANTS Tier, Broken, Emit
 
 F  == Fn("f", "f", "a.c", 0)
 G  == Fn("g", "g", "a.c", 0)
@@ -92,7 +92,17 @@ Rebuild ==
   /\ idx' = idx + 1
   /\ pc' = IF idx = Len(case.samples) THEN "done" ELSE "build"
   /\ UNCHANGED case
-Next == Rebuild
+Expected ==
+  [ nodes |-> TrimNodesD(case.samples, case.cfg, KK),
+    edges |-> { [src |-> x.src, dst |-> x.dst, w |-> x.w,
+                 allbypass |-> AllBypass(case.samples, case.cfg, KK, x.src, x.dst),
+                 nobypass |-> NoBypass(case.samples, case.cfg, KK, x.src, x.dst)] :
+                 x \in TrimEdgesD(case.samples, case.cfg, KK) } ]
+Finish ==
+  /\ pc = "done" /\ pc' = "end"
+  /\ (Emit => PrintT(ToJson([kind |-> "kept", samples |-> case.samples, cfg |-> case.cfg, K |-> KK, exp |-> Expected])))
+  /\ UNCHANGED <<case, idx, nodes, edges>>
+Next == Rebuild \/ Finish
 Spec == Init /\ [][Next]_vars
 
 \* ------------------------------------------------------------- properties
